@@ -184,6 +184,9 @@ macro_rules! jobs_for {
             };
             ctx.run("u", ctx.budget(QUICK * 2, FACTOR), vals(), eval_to_prim::<$U>);
             ctx.run("i", ctx.budget(QUICK * 2, FACTOR), vals(), eval_to_prim::<$I>);
+            // to_f32 / to_f64 have to round: kept mantissa | discarded tail at every bit length (exact ties, just above / below)
+            ctx.run("u_round", ctx.budget(QUICK, FACTOR), checks::common::float_rounding_ints(sh, false), eval_to_prim::<$U>);
+            ctx.run("i_round", ctx.budget(QUICK, FACTOR), checks::common::float_rounding_ints(sh, true), eval_to_prim::<$I>);
         }));
         $jobs.push(Job::new(job_name::<$U>("as_primitive"), move |ctx| {
             let s = move || (gen::pattern(sh), int_sources(sh), prop_oneof![any::<u64>(), float_bits(F64, w)]);
@@ -222,7 +225,7 @@ fn main() {
     runner::main(
         Property {
             id: "C19",
-            rule: "FromPrimitive: one 128-bit source pattern per case is read as each of the twelve primitive integer types (low bits), with patterns built from the target's MAX, MAX+1, MIN, MIN-1, 0, -1 (+-2, shifted by multiples of 2^W), every primitive's own MIN/MAX(+1), structured and uniform values; all 72 targets incl. the narrow 8/16/24/32/40/48-bit ones. from_f32/from_f64: bit patterns sign x exponent class {zero/subnormal, around 1.0, around 2^(p-1), bias+W-3..bias+W+2 (the floats adjacent to 2^W and 2^(W-1)), uniform in range, largest finite, inf/NaN} x mantissa class {0, 1, MSB, all ones, single bit, uniform}. ToPrimitive: structured values and every primitive's bounds +-2 embedded in the bnum type. Oracle: Some(v) with equal value iff representable (reference integer range test); floats: finite, truncated value in range and (unsigned) non-negative => Some(trunc), NaN/inf/out of range => None, both Some(0) and None accepted for negative floats in (-1, -0.0] into unsigned targets (the statement fixes neither); to_f32/to_f64 = Some(nearest float) by the C14 float model; AsPrimitive::as_ (bnum -> 12 ints + 2 floats, 16 primitive/char/bool/float types -> bnum, bnum -> bnum of the same digit family with N, 1 and 3 digits) equals the As cast (differential). Never panics. NON-TRIVIAL: source value outside the target range or within 1 of a bound; floats with a fractional part or |f| >= 2^(W-2) or non-finite; every AsPrimitive case. distinct = distinct (profile, job, inputs) by 64-bit hash. Exhaustive: all 16-bit patterns (4 embeddings) into the 8- and 24-bit targets, all 8-bit values through ToPrimitive.",
+            rule: "FromPrimitive: one 128-bit source pattern per case is read as each of the twelve primitive integer types (low bits), with patterns built from the target's MAX, MAX+1, MIN, MIN-1, 0, -1 (+-2, shifted by multiples of 2^W), every primitive's own MIN/MAX(+1), structured and uniform values; all 72 targets incl. the narrow 8/16/24/32/40/48-bit ones. from_f32/from_f64: bit patterns sign x exponent class {zero/subnormal, around 1.0, around 2^(p-1), bias+W-3..bias+W+2 (the floats adjacent to 2^W and 2^(W-1)), uniform in range, largest finite, inf/NaN} x mantissa class {0, 1, MSB, all ones, single bit, uniform}. ToPrimitive: structured values, every primitive's bounds +-2 embedded in the bnum type, and [kept mantissa | discarded tail] values at every bit length (exact ties with odd / even / all-ones mantissa, just above, just below) for to_f32 / to_f64. Oracle: Some(v) with equal value iff representable (reference integer range test); floats: finite, truncated value in range and (unsigned) non-negative => Some(trunc), NaN/inf/out of range => None, both Some(0) and None accepted for negative floats in (-1, -0.0] into unsigned targets (the statement fixes neither); to_f32/to_f64 = Some(nearest float) by the C14 float model; AsPrimitive::as_ (bnum -> 12 ints + 2 floats, 16 primitive/char/bool/float types -> bnum, bnum -> bnum of the same digit family with N, 1 and 3 digits) equals the As cast (differential). Never panics. NON-TRIVIAL: source value outside the target range or within 1 of a bound; floats with a fractional part or |f| >= 2^(W-2) or non-finite; every AsPrimitive case. distinct = distinct (profile, job, inputs) by 64-bit hash. Exhaustive: all 16-bit patterns (4 embeddings) into the 8- and 24-bit targets, all 8-bit values through ToPrimitive.",
             assumptions: &[
                 "float model validated against `as` on primitives on every run",
                 "usize/isize are 64 bits wide on this target",
